@@ -180,6 +180,27 @@ EXTRA6 = {
 for _k, _v in EXTRA6.items():
     EXTRA[_k] = EXTRA.get(_k, "") + _v
 
+EXTRA7 = {
+ "C02": " Also: a weight of 0 stays 0 under the rebalancer; every lock of the balancers is released on every path.",
+ "C03": " Also: Update keeps the buckets it has, applies the given rates on every call and recomputes the longest period whenever it resets it; the built-in extractors name the source exactly.",
+ "C05": " Also: the fallback is never the protected handler.",
+ "C06": " Also: the buffered body is handed down behind io.NopCloser.",
+ "C07": " Also: the client's header map is not edited besides the merge of the final attempt's headers.",
+ "C08": " Also: package forward removes only the X-* registry from request headers and never writes a header map directly; req.URL is the target only when RequestURI is empty or does not parse.",
+ "C09": " Also: RTMetrics.Append reads the other collector through its snapshot only.",
+ "C10": " Also: outliers are reported exactly when both groups of the split are non-empty; the normalising divisor is folded over current weights only.",
+ "C11": " Also: no shared mutable cookie prototype; the pool lock is not held across user cookie code without defer; a discarded attempt's headers do not survive.",
+ "C13": " Also: the bucket set is keyed by the unchanged source token; the buckets follow the rates handed in on every request.",
+ "C14": " Also: every insertion into the expiry queue goes through heap.Push; the entry lifetime follows the source's own rates.",
+ "C15": " Also: no request reaches the handler around the buffer.",
+ "C16": " Also: a FlushError method falls back to Flush.",
+ "C17": " Also: the slot of an instant is a pure function of instant, resolution and slot count; the metrics' builders run after the options.",
+ "C18": " Also: the breaker does not take its own lock again while changing state.",
+ "C20": " Also: recording and reset take the metrics' locks in one order; a request at exactly the limit is not refused; the affinity cookie is added, not set.",
+}
+for _k, _v in EXTRA7.items():
+    EXTRA[_k] = EXTRA.get(_k, "") + _v
+
 NA = {}
 
 def main():
